@@ -344,6 +344,18 @@ def job_families(tier, rng):
             chk(_guard(lambda: all(np.isfinite(float(f(d, float(a)))) and float(f(d, float(a))) >= -1e-12 and (a > 1 / (d + 1) or float(f(d, float(a))) == 0)
                                    and (a > 1 / (d + 1) + 1e-8 or float(f(d, float(a))) < 1e-6)
                                    for f in (si.get_Isotropic_ree, si.get_Isotropic_GME, si.get_Isotropic_eof))), fn='Isotropic closed forms at the floating-point neighbours of their branch points', d=d, alpha=float(a))
+    # argument types: the closed forms take a float, an int, a numpy scalar, a list or an integer array; the value must not depend on the TYPE of alpha
+    for d in (2, 3, 4):
+        for f in (si.get_Werner_eof, si.get_Isotropic_eof, si.get_Werner_GME, si.get_Isotropic_GME):
+            def fty():
+                ref = [float(f(d, float(a))) for a in (-1.0 if 'Werner' in f.__name__ else 0.0, 0.0, 1.0)]
+                a_int = [-1 if 'Werner' in f.__name__ else 0, 0, 1]
+                ok_ = all(abs(float(f(d, a_)) - r_) < 1e-12 for a_, r_ in zip(a_int, ref))
+                ok_ = ok_ and all(abs(float(f(d, np.int64(a_))) - r_) < 1e-12 for a_, r_ in zip(a_int, ref))
+                ok_ = ok_ and np.abs(np.asarray(f(d, np.array(a_int)), dtype=float) - np.array(ref)).max() < 1e-12 and ('GME' in f.__name__ or np.abs(np.asarray(f(d, a_int), dtype=float) - np.array(ref)).max() < 1e-12)      # the GME closed forms document float / ndarray only
+                ok_ = ok_ and np.abs(np.asarray(f(d, np.array(a_int, dtype=np.float32)), dtype=float) - np.array(ref)).max() < 1e-6
+                return ok_
+            chk(_guard(fty), fn=f.__name__ + ' independent of the type of alpha (int / numpy int / list / int array)', d=d)
     # closed-form EOF of the isotropic family against the formula of Terhal & Vollbrecht (PRL 85, 2625) re-stated here, plus continuity / monotonicity in alpha
     def tv_eof(d, a):
         F = (1 + a * (d * d - 1)) / (d * d)
